@@ -119,6 +119,26 @@ fn case(srv: &mut Srv, seed: u64, res: &mut CaseResult) -> R<()> {
             std::thread::sleep(Duration::from_millis(10));
         }
     }
+    // a duplex generator fed arbitrary bytes: the content store holds any byte string, so a `.send` may carry
+    // non-UTF-8 content; the pipeline reports type and length of what it is fed
+    let dxb_ctx = ctxs[rng.below(2)];
+    let dxb = srv.must_append("dxb.spawn", dxb_ctx, Some(br#"each {|x| $"got:($x | describe):($x | into binary | bytes length)"}"#), Some(json!({"duplex": true})), None)?;
+    let dxb_id = dxb.id.to_string();
+    let mut dxb_bytes_sent = 0usize;
+    if srv.wait(Duration::from_secs(20), |log| log.iter().any(|f| f.topic == "dxb.start" && meta_str(f, "source_id") == Some(&dxb_id)))? {
+        let blob = rng.bytes(40 + rng.clone().below(60));
+        let sends: Vec<Vec<u8>> = vec![format!("text-before-{}\n", seed % 997).into_bytes(), vec![0xff, 0xfe, 0xfd, 0xfc, 0xfb, 0xfa, 0x80], format!("text-after-binary-{}\n", seed % 997).into_bytes(), blob, b"last-text-line\n".to_vec()];
+        for s in &sends {
+            srv.must_append("dxb.send", dxb_ctx, Some(s), None, None)?;
+            dxb_bytes_sent += s.len();
+            srv.must_append("chatter", dxb_ctx, None, None, None)?;
+            std::thread::sleep(Duration::from_millis(15));
+        }
+        res.count("duplex_binary_sends", sends.len() as u64);
+    } else {
+        res.inconclusive = Some("byte-fed duplex generator did not start within 20 s".into());
+        return Ok(());
+    }
     // second lifecycle of the finite duplex generator: after its stop and restart, fresh tokens only
     {
         let (n0, id0) = (duplex[0].0.clone(), duplex[0].2.id.to_string());
@@ -265,6 +285,38 @@ fn case(srv: &mut Srv, seed: u64, res: &mut CaseResult) -> R<()> {
                 gs.dedup();
                 let sig = if gs.len() < got.len() { "duplex/input-fed-more-than-once" } else if got.len() < want.len() { "duplex/input-lost" } else if got.iter().any(|g| g.contains("noise")) { "duplex/fed-input-of-another-name" } else { "duplex/echoes-differ-or-out-of-order" };
                 res.find(&["C18"], sig, json!({"generator": name, "got": got, "expected": want}));
+            }
+        }
+    }
+    // byte-fed duplex generator: every byte fed exactly once (chunk boundaries are nu's business), none lost, and the
+    // instance survives non-UTF-8 input. The other duplex echoes being complete is the progress witness.
+    {
+        let mut fed = 0usize;
+        let mut outs = vec![];
+        let t0 = std::time::Instant::now();
+        loop {
+            srv.pull()?;
+            let recvs: Vec<Frame> = srv.era_log().iter().filter(|f| f.topic == "dxb.recv" && meta_str(f, "source_id") == Some(&dxb_id)).cloned().collect();
+            fed = 0;
+            outs.clear();
+            for r in &recvs {
+                let c = srv.content_str(r)?.unwrap_or_default();
+                fed += c.rsplit(':').next().and_then(|n| n.trim().parse::<usize>().ok()).unwrap_or(0);
+                outs.push(c);
+            }
+            if fed >= dxb_bytes_sent || t0.elapsed() > Duration::from_secs(15) {
+                break;
+            }
+            std::thread::sleep(Duration::from_millis(50));
+        }
+        res.count("duplex_bytes_checked", dxb_bytes_sent as u64);
+        if fed != dxb_bytes_sent {
+            let died = srv.era_log().iter().any(|f| f.topic == "dxb.stop" && meta_str(f, "source_id") == Some(&dxb_id));
+            if fed < dxb_bytes_sent && !dok {
+                res.inconclusive = Some(format!("byte-fed duplex generator: {} of {} bytes within the watchdog", fed, dxb_bytes_sent));
+            } else {
+                let sig = if fed > dxb_bytes_sent { "duplex/bytes-fed-more-than-once" } else { "duplex/bytes-lost" };
+                res.find(&["C18"], sig, json!({"generator": "dxb", "bytes_sent": dxb_bytes_sent, "bytes_fed": fed, "outputs": outs, "stopped": died}));
             }
         }
     }
